@@ -1,6 +1,7 @@
 package harness
 
 import (
+	"errors"
 	"fmt"
 	"sort"
 
@@ -65,7 +66,7 @@ func runPSHistory(in *postscript.Interpreter, src []byte, sch sim.Schedule, cuts
 		if err != nil {
 			res.Err = err
 			res.Trail += fmt.Sprintf("[call %d: %s]", res.Calls, err.Error())
-			if !goOn || err == postscript.ErrExecutionLimitExceeded || err == postscript.ErrNoPostScript || err == sim.ErrInjected {
+			if !goOn || err == postscript.ErrExecutionLimitExceeded || err == postscript.ErrNoPostScript || errors.Is(err, sim.ErrInjected) {
 				break
 			}
 		}
